@@ -72,6 +72,7 @@ func (p Parser) HandleRawSQLQuery(sql string) (normalizedQuery, redactedQuery st
 
 	// redact and mask VALUES
 	Normalize(stmt, bv, ValueMask)
+	redactNumbersLeftByNormalize(stmt)
 
 	return normalizedQ, String(stmt), outputStmt, nil
 }
